@@ -9,6 +9,7 @@
 (* combined by the linking (default: and) or by the expression, negated if *)
 (* neg is set, evaluate to true.  A transformation acts on                 *)
 (*   a detection item  iff rule group /\ detection-item group /\ field group (item's field) *)
+(*   a field reference in a value  iff rule group /\ detection-item group /\ field group (referenced field) *)
 (*   an entry of the rule's field list  iff rule group /\ field group      *)
 (*   the rule itself   iff rule group.                                     *)
 (* Conditions on applied items and on pipeline state see what the items    *)
@@ -89,6 +90,9 @@ FieldGateName(G, f, rule) ==
     GroupHolds(G.field, [i \in 1..Len(G.field.conds) |-> FieldCond(G.field.conds[i], f.name, f.applied, rule)])
 
 ActsOnItem(G, j, rule) == RuleGate(G, rule) /\ ItemGate(G, rule.items[j], rule) /\ FieldGateItem(G, rule.items[j], rule)
+\* a field reference in a value of item j: the field conditions look at the REFERENCED field name
+ActsOnFieldRef(G, j, refname, rule) ==
+    RuleGate(G, rule) /\ ItemGate(G, rule.items[j], rule) /\ FieldGateName(G, [name |-> refname, applied |-> <<>>], rule)
 ActsOnFieldEntry(G, j, rule) == RuleGate(G, rule) /\ FieldGateName(G, rule.fields[j], rule)
 ActsOnRule(G, rule) == RuleGate(G, rule)
 =============================================================================
